@@ -159,7 +159,34 @@ fn frame_probe(n0: usize, n1: usize, cap: usize, w: &mut dyn Write) {
     e1 as u32, s1, k1, e2 as u32, s2, k2, m1.max(m2)).unwrap();
 }
 
+fn unhex(s: &str) -> Vec<u8> {
+  (0..s.len() / 2).map(|i| u8::from_str_radix(&s[2 * i..2 * i + 2], 16).unwrap_or(0)).collect()
+}
+
+/// value of `key=` among the inputs of a protocol line
+fn field<'a>(line: &'a str, key: &str) -> &'a str {
+  let ins = line.split(" | ").next().unwrap_or("");
+  for tok in ins.split_whitespace() {
+    if let Some(v) = tok.strip_prefix(key) { if let Some(v) = v.strip_prefix('=') { return v; } }
+  }
+  ""
+}
+
 pub fn run(sub: &str, opts: &Opts, w: &mut dyn Write) {
+  if let Some(line) = opts.get("replay-line") {
+    // re-run exactly the case whose inputs are in that line
+    if sub == "frame" {
+      let g = |k: &str| field(line, k).parse::<usize>().unwrap_or(0);
+      frame_probe(g("n0"), g("n1"), g("cap"), w);
+    } else {
+      let prog = unhex(field(line, "prog"));
+      let iv: Vec<u16> = field(line, "init").split(',').map(|x| x.parse::<u16>().unwrap_or(0)).collect();
+      let init = [iv.get(0).copied().unwrap_or(0), iv.get(1).copied().unwrap_or(0), iv.get(2).copied().unwrap_or(0), iv.get(3).copied().unwrap_or(0)];
+      let steps = field(line, "steps").parse::<usize>().unwrap_or(0);
+      run_prog(if sub == "blocks" { "c09.blocks" } else { "c09" }, &prog, init, steps, w);
+    }
+    return;
+  }
   let (shard, nshards) = opts.shard();
   let mut rng = Rng::new(opts.seed ^ 0xc09);
   if sub == "frame" {
@@ -177,7 +204,7 @@ pub fn run(sub: &str, opts: &Opts, w: &mut dyn Write) {
     return;
   }
   let name = if sub == "blocks" { "c09.blocks" } else { "c09" };
-  let (nprog, steps) = if opts.thorough { (3000usize, 4000usize) } else { (200usize, 1000usize) };
+  let (nprog, steps) = if opts.thorough { (6000usize, 1500usize) } else { (200usize, 1000usize) };   // a line stays below the argv limit for --replay-line
   for i in 0..nprog {
     let prog = gen_prog(&mut rng);
     let init = [rng.u16() & 0xfff0, rng.u16(), rng.u16(), 0u16];
